@@ -1,8 +1,8 @@
 import StoneVerif.Lemmas.FeCompileLegalAccept
 set_option linter.unusedSimpArgs false
 /-!
-What the compile model accepts obeys the rules: the checks that passes 3 - 6 made, at whatever moment and in whatever
-order, add up to the order-free clauses of `Legal`.
+What the compileCore model accepts obeys the rules: the checks that passes 3 - 6 made, at whatever moment and in whatever
+order, add up to the order-free clauses of `LegalCore`.
 -/
 namespace StoneVerif.FeCompile.L
 open StoneVerif.FeCompile
